@@ -2,12 +2,14 @@
 (***************************************************************************)
 (* The generic trace-validation loop (see TraceKit): instantiate with the  *)
 (* monitor's InitStates(resetRecord) and Step(state, event).               *)
+(* A record {"ev":"one","case":n,...} is a self-contained case judged by    *)
+(* One(record): "" accepts it, any other string says why it is rejected.   *)
 (* Variables: l next line, poss determinised monitor state set, cur case   *)
 (* id, failed sequence of rejected cases, skip TRUE while skipping the     *)
 (* remainder of a rejected case.                                           *)
 (***************************************************************************)
 EXTENDS TraceKit
-CONSTANTS InitStates(_), Step(_, _)
+CONSTANTS InitStates(_), Step(_, _), One(_)
 VARIABLES l, poss, cur, failed, skip
 tvars == <<l, poss, cur, failed, skip>>
 
@@ -17,7 +19,11 @@ TraceNext ==
     /\ l <= Len(Trace)
     /\ l' = l + 1
     /\ LET e == Trace[l] IN
-       IF e.ev = "reset"
+       IF e.ev = "one"      \* a self-contained case: judged by One, no state
+       THEN /\ failed' = LET why == One(e) IN
+                          IF why = "" THEN failed ELSE Append(failed, [case |-> e.case, line |-> l, why |-> why])
+            /\ UNCHANGED <<poss, cur, skip>>
+       ELSE IF e.ev = "reset"
        THEN /\ poss' = InitStates(e) /\ cur' = e.case /\ skip' = FALSE /\ UNCHANGED failed
        ELSE IF skip THEN UNCHANGED <<poss, cur, failed, skip>>
        ELSE LET nxt == UNION {Step(s, e) : s \in poss} IN
